@@ -198,6 +198,11 @@ func makeSerializers(c codec, ctl *codecCtl, view bool) serializers {
 			if err != nil {
 				return nil, 0, err
 			}
+			if len(p) > 0 && p[0] == 0xBD {
+				// a key that encodes but whose stored form does not decode (a key serializer that does not
+				// round-trip): Stream ends at it with the decoder's error
+				return nil, 0, errDecode
+			}
 
 			return hkey(own(p)), len(b), nil
 		},
@@ -899,6 +904,8 @@ func (ss *session) execOn(in *inst, idx int, f []string) string {
 			end = "err-cb"
 		case strings.Contains(serr.Error(), "failed to deserialize value"):
 			end = "err-dec"
+		case strings.Contains(serr.Error(), "failed to iterate over raw keys") && errors.Is(serr, errDecode):
+			end = "err-keydec"
 		default:
 			end = "err"
 		}
@@ -1134,7 +1141,7 @@ func (ss *session) execOn(in *inst, idx int, f []string) string {
 		if n0 != n1 || n1 != len(in.want) {
 			ss.fail("reopen-faithful", "reopen", in, fmt.Sprintf("Size() %d before, %d after reopening; plain map holds %d", n0, n1, len(in.want)))
 		}
-		if showPairs(ps0) != showPairs(ps1) || err1 != nil && !strings.Contains(err1.Error(), "failed to deserialize value") {
+		if showPairs(ps0) != showPairs(ps1) || err1 != nil && !strings.Contains(err1.Error(), "failed to deserialize value") && !strings.Contains(err1.Error(), "failed to iterate over raw keys") {
 			ss.fail("reopen-faithful", "reopen", in, fmt.Sprintf("Stream %s before, %s after reopening (%v)", showPairs(ps0), showPairs(ps1), err1))
 		}
 		if in.restored() != (in.commits > 0) {
@@ -1227,6 +1234,11 @@ func (ss *session) checkStream(in *inst, ps []pair, end string, stop int) {
 		if derr != nil || !has {
 			continue // reported by the layout oracle
 		}
+		if len(k) > 0 && k[0] == 0xBD {
+			expEnd = "err-keydec"
+
+			break
+		}
 		if in.isMap() && len(w) > 0 && w[0] == 0xDD {
 			expEnd = "err-dec"
 
@@ -1273,6 +1285,9 @@ type gen struct {
 func (g *gen) key() string {
 	if g.rng.Chance(1, 60) {
 		return "ee01" // does not encode
+	}
+	if g.rng.Chance(1, 90) {
+		return "bd01" // encodes, but its stored form does not decode
 	}
 
 	return hx.Pick(g.rng, g.keys)
@@ -1810,6 +1825,9 @@ func main() {
 		"idfail 0 off", "set 0 " + k.Core[0] + " 61", "commit 0", "restored 0", "set 0 " + k.Core[1] + " 62", "idfail 0 enc", "commit 0", "idfail 0 off", "peek 0", "commit 0",
 		"reopen 0", "root 0", "size 0", "idfail 0 dec", "reopen 0", "restored 0", "has 0 " + k.Core[0], "size 0", "stream 0 0", "root 0", "idfail 0 off", "commit 0", "peek 0",
 		"reopen 0", "has 0 " + k.Core[0], "root 0", "peek 0"})
+	// a raw key that does not decode ends Stream (kvstore.TypedStore.IterateKeys); everything else still works
+	corpus = append(corpus, []string{"open 0 map", "open 1 set:ipi", "set 0 " + k.Core[0] + " 61", "set 0 bd01 62", "set 0 ff 63", "get 0 bd01", "has 0 bd01", "size 0", "stream 0 0",
+		"stream 0 1", "root 0", "commit 0", "reopen 0", "stream 0 0", "del 0 bd01", "stream 0 0", "add 1 bd01", "add 1 00", "stream 1 0", "has 1 bd01", "peek 1"})
 	for _, c := range corpus {
 		runCase(r, 0, c)
 	}
